@@ -9,20 +9,22 @@ import UBidi.Lemmas.C01NeutralN0
 namespace UBidi.Lemmas.C01Neutral
 open UBidi UBidi.BidiClass
 
-/-- the test of the crate's "following NSMs" loop -/
-def condP (ocs pcs : Classes) (i : Nat) : Bool := cget ocs i == NSM || cget pcs i == BN
+/-- the test of the crate's "following NSMs" loop: the sweep goes on over an original NSM (which it
+    overwrites) and over a unit removed by X9 (which it steps over without writing) -/
+def condP (ocs : Classes) (i : Nat) : Bool := cget ocs i == NSM || (cget ocs i).removedByX9
 
 /-- the units `n0Pair` overwrites for the pair `(o, c)`: the two brackets, the BN units directly
-    before `o`, and the NSM-or-BN units directly after `o` and after `c` -/
+    before `o`, and the original NSMs reached from `o` and from `c` through original-NSM / removed
+    units only -/
 def WrV (U : List Nat) (ocs pcs : Classes) (o c j : Nat) : Prop :=
   j ∈ U ∧ (j = o ∨ j = c ∨
     (j < o ∧ ∀ i ∈ U, j ≤ i → i < o → cget pcs i = BN) ∨
-    (o < j ∧ j < c ∧ ∀ i ∈ U, o < i → i ≤ j → condP ocs pcs i = true) ∨
-    (c < j ∧ ∀ i ∈ U, c < i → i ≤ j → condP ocs pcs i = true))
+    (o < j ∧ j < c ∧ cget ocs j = NSM ∧ ∀ i ∈ U, o < i → i ≤ j → condP ocs i = true) ∨
+    (c < j ∧ cget ocs j = NSM ∧ ∀ i ∈ U, c < i → i ≤ j → condP ocs i = true))
 
-theorem condP_iff (ocs pcs : Classes) (i : Nat) :
-    condP ocs pcs i = true ↔ cget ocs i = NSM ∨ cget pcs i = BN := by
-  simp [condP]
+theorem condP_iff (ocs : Classes) (i : Nat) :
+    condP ocs i = true ↔ cget ocs i = NSM ∨ keepU ocs i = false := by
+  simp [condP, keepU]
 
 theorem keepU_of_NSM {ocs : Classes} {i : Nat} (h : cget ocs i = NSM) : keepU ocs i = true := by
   simp [keepU, h, BidiClass.removedByX9]
@@ -75,76 +77,48 @@ variable {U : List Nat} {ocs pcs pcs' : Classes} {F F' : Nat → Prop} {o c : Na
 theorem WrV_kept (hinv : InvBN U ocs pcs F) {j : Nat} (hw : WrV U ocs pcs o c j)
     (hk : keepU ocs j = true) :
     j = o ∨ j = c ∨ (cget ocs j = NSM ∧
-      ((o < j ∧ j < c ∧ ∀ i ∈ U, o < i → i ≤ j → condP ocs pcs i = true) ∨
-       (c < j ∧ ∀ i ∈ U, c < i → i ≤ j → condP ocs pcs i = true))) := by
+      ((o < j ∧ j < c ∧ ∀ i ∈ U, o < i → i ≤ j → condP ocs i = true) ∨
+       (c < j ∧ ∀ i ∈ U, c < i → i ≤ j → condP ocs i = true))) := by
   obtain ⟨hjU, h⟩ := hw
   have hnb := hinv.kept j hjU hk
-  rcases h with h | h | ⟨h1, h2⟩ | ⟨h1, h2, h3⟩ | ⟨h1, h2⟩
+  rcases h with h | h | ⟨h1, h2⟩ | ⟨h1, h2, h3, h4⟩ | ⟨h1, h2, h3⟩
   · exact Or.inl h
   · exact Or.inr (Or.inl h)
   · exact absurd (h2 j hjU (Nat.le_refl _) h1) hnb
-  · have := (condP_iff _ _ _).1 (h3 j hjU h1 (Nat.le_refl _))
-    rcases this with h4 | h4
-    · exact Or.inr (Or.inr ⟨h4, Or.inl ⟨h1, h2, h3⟩⟩)
-    · exact absurd h4 hnb
-  · have := (condP_iff _ _ _).1 (h2 j hjU h1 (Nat.le_refl _))
-    rcases this with h4 | h4
-    · exact Or.inr (Or.inr ⟨h4, Or.inr ⟨h1, h2⟩⟩)
-    · exact absurd h4 hnb
+  · exact Or.inr (Or.inr ⟨h3, Or.inl ⟨h1, h2, h4⟩⟩)
+  · exact Or.inr (Or.inr ⟨h2, Or.inr ⟨h1, h3⟩⟩)
 
-/-- a removed unit that is overwritten carried BN -/
+/-- a removed unit that is overwritten lies in the BN run directly before the opening bracket -/
 theorem WrV_removed {j : Nat} (hw : WrV U ocs pcs o c j) (hk : keepU ocs j = false)
-    (hko : keepU ocs o = true) (hkc : keepU ocs c = true) : cget pcs j = BN := by
+    (hko : keepU ocs o = true) (hkc : keepU ocs c = true) :
+    j < o ∧ ∀ i ∈ U, j ≤ i → i < o → cget pcs i = BN := by
   obtain ⟨hjU, h⟩ := hw
   have hns := keepU_false_ne_NSM hk
-  rcases h with h | h | ⟨h1, h2⟩ | ⟨h1, _, h3⟩ | ⟨h1, h2⟩
+  rcases h with h | h | ⟨h1, h2⟩ | ⟨_, _, h3, _⟩ | ⟨_, h2, _⟩
   · subst h; rw [hko] at hk; cases hk
   · subst h; rw [hkc] at hk; cases hk
-  · exact h2 j hjU (Nat.le_refl _) h1
-  · rcases (condP_iff _ _ _).1 (h3 j hjU h1 (Nat.le_refl _)) with h4 | h4
-    · exact absurd h4 hns
-    · exact h4
-  · rcases (condP_iff _ _ _).1 (h2 j hjU h1 (Nat.le_refl _)) with h4 | h4
-    · exact absurd h4 hns
-    · exact h4
+  · exact ⟨h1, h2⟩
+  · exact absurd h3 hns
+  · exact absurd h2 hns
 
-/-- a pending bracket end other than `o`, `c` is not overwritten -/
-theorem not_WrV_fresh (hinv : InvBN U ocs pcs F) {b : Nat} (hb : F b) (hbo : b ≠ o) (hbc : b ≠ c) :
-    ¬ WrV U ocs pcs o c b := by
-  intro hw
-  obtain ⟨_, hk, hns, _⟩ := hinv.fresh b hb
-  rcases WrV_kept hinv hw hk with h | h | ⟨h, _⟩
-  · exact hbo h
-  · exact hbc h
-  · exact hns h
+/-- a sweep segment is a trail -/
+theorem inTrail_of_seg {b q : Nat} (hbq : b < q) (hseg : ∀ i ∈ U, b < i → i ≤ q → condP ocs i = true) :
+    InTrail U ocs b q :=
+  ⟨hbq, fun i hi h1 h2 => by
+    rcases (condP_iff _ _).1 (hseg i hi h1 h2) with h | h
+    · exact Or.inr h
+    · exact Or.inl h⟩
 
-/-- **the invariant is preserved by one `n0Pair` step** that writes `v` at the units `WrV` -/
-theorem inv_step (hinv : InvBN U ocs pcs F) (hFo : F o) (hFc : F c) (hoc : o < c)
-    (hF' : ∀ b, F' b → F b ∧ b ≠ o ∧ b ≠ c) (hvBN : v ≠ BN)
+/-- **the invariant is preserved by one `n0Pair` step** that writes `v` at the units `WrV`; the
+    pairs are processed in the order of their opening brackets, so every end still pending afterwards
+    lies behind the opening bracket `o` -/
+theorem inv_step (hinv : InvBN U ocs pcs F) (hFo : F o) (hFc : F c)
+    (hF' : ∀ b, F' b → F b ∧ b ≠ o ∧ b ≠ c) (hord : ∀ b, F' b → o < b) (hvBN : v ≠ BN)
     (hpt : ∀ j, (WrV U ocs pcs o c j → cget pcs' j = v) ∧ (¬ WrV U ocs pcs o c j → cget pcs' j = cget pcs j)) :
     InvBN U ocs pcs' F' := by
-  obtain ⟨hoU, hko, hno, hto⟩ := hinv.fresh o hFo
-  obtain ⟨hcU, hkc, hnc, htc⟩ := hinv.fresh c hFc
+  obtain ⟨hoU, hko⟩ := hinv.fresh o hFo
+  obtain ⟨hcU, hkc⟩ := hinv.fresh c hFc
   have hwo : WrV U ocs pcs o c o := ⟨hoU, Or.inl rfl⟩
-  have hwc : WrV U ocs pcs o c c := ⟨hcU, Or.inr (Or.inl rfl)⟩
-  -- a bracket `b ∈ {o, c}` is kept and not an original NSM, so it cannot sit inside a trail
-  have hnotin : ∀ b, (b = o ∨ b = c) → ∀ b' k, InTrail U ocs b' k → b' < b → b ≤ k → False := by
-    intro b hb b' k ⟨_, ht⟩ h1 h2
-    have hbU : b ∈ U := by rcases hb with rfl | rfl <;> assumption
-    rcases ht b hbU h1 h2 with h | h
-    · rcases hb with rfl | rfl
-      · rw [hko] at h; cases h
-      · rw [hkc] at h; cases h
-    · rcases hb with rfl | rfl
-      · exact hno h
-      · exact hnc h
-  -- a pending end `b'` cannot sit inside a swept segment
-  have hnoseg : ∀ b', F b' → condP ocs pcs b' = true → False := by
-    intro b' hb' hcp
-    obtain ⟨hb'U, hk', hn', ht'⟩ := hinv.fresh b' hb'
-    rcases (condP_iff _ _ _).1 hcp with h | h
-    · exact hn' h
-    · rw [ht'] at h; cases h
   refine ⟨?_, ?_, ?_, ?_⟩
   · -- kept
     intro i hi hk
@@ -153,71 +127,20 @@ theorem inv_step (hinv : InvBN U ocs pcs F) (hFo : F o) (hFc : F c) (hoc : o < c
     · rw [(hpt i).2 hw]; exact hinv.kept i hi hk
   · -- fresh
     intro b hb
-    obtain ⟨hFb, hbo, hbc⟩ := hF' b hb
-    obtain ⟨h1, h2, h3, h4⟩ := hinv.fresh b hFb
-    exact ⟨h1, h2, h3, by rw [(hpt b).2 (not_WrV_fresh hinv hFb hbo hbc)]; exact h4⟩
+    exact hinv.fresh b (hF' b hb).1
   · -- wit
     intro p hp hk
     by_cases hw : WrV U ocs pcs o c p
-    · -- a removed unit that has just been written
+    · -- a removed unit that has just been written: one of the BN units before the opening
+      -- bracket; forward witness `o`
       have hpv := (hpt p).1 hw
-      obtain ⟨_, h⟩ := hw
-      -- the two sweep cases are the same argument
-      have hsweep : ∀ b, (b = o ∨ b = c) → b < p →
-          (∀ i ∈ U, b < i → i ≤ p → WrV U ocs pcs o c i ∧ condP ocs pcs i = true) →
-          BwdWit U ocs pcs' F' p := by
-        intro b hb hbp hseg
-        have hbU : b ∈ U := by rcases hb with rfl | rfl <;> assumption
-        have hkb : keepU ocs b = true := by rcases hb with rfl | rfl <;> assumption
-        have hwb : WrV U ocs pcs o c b := by rcases hb with rfl | rfl <;> assumption
-        obtain ⟨q, hqU, hqp, hkq, hmax⟩ := exists_last_kept (keepU ocs) p U ⟨b, hbU, hbp, hkb⟩
-        have hbq : b ≤ q := by
-          rcases Nat.lt_or_ge q b with hlt | hge
-          · have := hmax b hbU hlt hbp; rw [hkb] at this; cases this
-          · exact hge
-        have hwq : WrV U ocs pcs o c q ∧ (b < q → cget ocs q = NSM) := by
-          rcases Nat.eq_or_lt_of_le hbq with heq | hlt
-          · subst heq; exact ⟨hwb, fun h => absurd h (Nat.lt_irrefl _)⟩
-          · have := hseg q hqU hlt (Nat.le_of_lt hqp)
-            refine ⟨this.1, fun _ => ?_⟩
-            rcases (condP_iff _ _ _).1 this.2 with h1 | h1
-            · exact h1
-            · exact absurd h1 (hinv.kept q hqU hkq)
-        refine ⟨q, hqU, hqp, hkq, by rw [(hpt q).1 hwq.1, hpv], hmax, ?_⟩
-        intro b' hb'
-        obtain ⟨hFb', hb'o, hb'c⟩ := hF' b' hb'
-        obtain ⟨hb'U, hkb', hnb', htb'⟩ := hinv.fresh b' hFb'
-        have hb'b : b' ≠ b := by rcases hb with rfl | rfl <;> assumption
-        constructor
-        · intro heq
-          subst heq
-          rcases Nat.eq_or_lt_of_le hbq with heq | hlt
-          · exact hb'b heq.symm
-          · exact hnb' (hwq.2 hlt)
-        · intro hin
-          rcases Nat.lt_trichotomy b' b with h1 | h1 | h1
-          · exact hnotin b hb b' q hin h1 hbq
-          · exact hb'b h1
-          · have hb'q : b' < q := hin.1
-            exact hnoseg b' hFb' (hseg b' hb'U h1 (by omega)).2
-      rcases h with h | h | ⟨h1, h2⟩ | ⟨h1, h2, h3⟩ | ⟨h1, h2⟩
-      · subst h; rw [hko] at hk; cases hk
-      · subst h; rw [hkc] at hk; cases hk
-      · -- the BN units before the opening bracket: forward witness `o`
-        refine Or.inr (Or.inr (Or.inl ⟨o, hoU, h1, hko, by rw [(hpt o).1 hwo, hpv], ?_⟩))
-        intro i hi hpi hio
-        have hbn := h2 i hi (Nat.le_of_lt hpi) hio
-        cases hki : keepU ocs i with
-        | false => rfl
-        | true => exact absurd hbn (hinv.kept i hi hki)
-      · refine Or.inr (Or.inr (Or.inr (hsweep o (Or.inl rfl) h1 ?_)))
-        intro i hi hoi hip
-        exact ⟨⟨hi, Or.inr (Or.inr (Or.inr (Or.inl ⟨hoi, by omega, fun i' hi' a b => h3 i' hi' a (by omega)⟩)))⟩,
-          h3 i hi hoi hip⟩
-      · refine Or.inr (Or.inr (Or.inr (hsweep c (Or.inr rfl) h1 ?_)))
-        intro i hi hci hip
-        exact ⟨⟨hi, Or.inr (Or.inr (Or.inr (Or.inr ⟨hci, fun i' hi' a b => h2 i' hi' a (by omega)⟩)))⟩,
-          h2 i hi hci hip⟩
+      obtain ⟨h1, h2⟩ := WrV_removed hw hk hko hkc
+      refine Or.inr (Or.inr ⟨o, hoU, h1, hko, by rw [(hpt o).1 hwo, hpv], ?_, fun hb => (hF' o hb).2.1 rfl⟩)
+      intro i hi hpi hio
+      have hbn := h2 i hi (Nat.le_of_lt hpi) hio
+      cases hki : keepU ocs i with
+      | false => rfl
+      | true => exact absurd hbn (hinv.kept i hi hki)
     · -- an untouched removed unit
       have hpp := (hpt p).2 hw
       rw [hpp]
@@ -225,73 +148,42 @@ theorem inv_step (hinv : InvBN U ocs pcs F) (hFo : F o) (hFc : F c) (hoc : o < c
       · exact Or.inl hbn
       by_cases hon : cget pcs p = ON
       · exact Or.inr (Or.inl hon)
-      rcases hinv.wit p hp hk with h | h | ⟨q, hqU, hpq, hkq, hty, hbetw⟩ | ⟨q, hqU, hqp, hkq, hty, hbetw, hst⟩
+      rcases hinv.wit p hp hk with h | h | ⟨q, hqU, hpq, hkq, hty, hbetw, hnF⟩
       · exact absurd h hbn
       · exact absurd h hon
-      · -- forward witness: `q` is not overwritten, because a sweep reaching `q` passes `p`
+      · -- forward witness: `q` is not overwritten, because a sweep reaching `q` passes `p`, which
+        -- lies in the trail of the bracket and so carries BN or ON
         have hnw : ¬ WrV U ocs pcs o c q := by
           intro hwq
-          have hcase : ∀ b, b ∈ U → keepU ocs b = true → b < q →
-              (∀ i ∈ U, b < i → i ≤ q → condP ocs pcs i = true) → False := by
-            intro b hbU hkb hbq hseg
+          have hcase : ∀ b, F b → b < q →
+              (∀ i ∈ U, b < i → i ≤ q → condP ocs i = true) → False := by
+            intro b hFb hbq hseg
+            obtain ⟨hbU, hkb⟩ := hinv.fresh b hFb
             have hbp : b < p := by
               rcases Nat.lt_trichotomy b p with h1 | h1 | h1
               · exact h1
               · subst h1; rw [hkb] at hk; cases hk
               · have := hbetw b hbU h1 hbq; rw [hkb] at this; cases this
-            rcases (condP_iff _ _ _).1 (hseg p hp hbp (Nat.le_of_lt hpq)) with h1 | h1
-            · exact keepU_false_ne_NSM hk h1
+            rcases hinv.trail b hFb q hqU hkq (inTrail_of_seg hbq hseg) p hp hbp hpq hk with h1 | h1
             · exact hbn h1
+            · exact hon h1
           rcases WrV_kept hinv hwq hkq with h | h | ⟨_, ⟨h1, _, h3⟩ | ⟨h1, h3⟩⟩
-          · subst h; rw [hto] at hty; exact hon hty.symm
-          · subst h; rw [htc] at hty; exact hon hty.symm
-          · exact hcase o hoU hko h1 h3
-          · exact hcase c hcU hkc h1 h3
-        exact Or.inr (Or.inr (Or.inl ⟨q, hqU, hpq, hkq, by rw [(hpt q).2 hnw, hty, hpp], hbetw⟩))
-      · -- backward witness: `q` is protected by its stability clause
-        have hnw : ¬ WrV U ocs pcs o c q := by
-          intro hwq
-          have hcase : ∀ b, F b → b < q →
-              (∀ i ∈ U, b < i → i ≤ q → condP ocs pcs i = true) → False := by
-            intro b hFb hbq hseg
-            refine (hst b hFb).2 ⟨hbq, fun i hi h1 h2 => ?_⟩
-            rcases (condP_iff _ _ _).1 (hseg i hi h1 h2) with h3 | h3
-            · exact Or.inr h3
-            · left
-              cases hki : keepU ocs i with
-              | false => rfl
-              | true => exact absurd h3 (hinv.kept i hi hki)
-          rcases WrV_kept hinv hwq hkq with h | h | ⟨_, ⟨h1, _, h3⟩ | ⟨h1, h3⟩⟩
-          · exact (hst o hFo).1 h.symm
-          · exact (hst c hFc).1 h.symm
+          · subst h; exact hnF hFo
+          · subst h; exact hnF hFc
           · exact hcase o hFo h1 h3
           · exact hcase c hFc h1 h3
-        exact Or.inr (Or.inr (Or.inr ⟨q, hqU, hqp, hkq, by rw [(hpt q).2 hnw, hty, hpp], hbetw,
-          fun b hb => hst b (hF' b hb).1⟩))
+        exact Or.inr (Or.inr ⟨q, hqU, hpq, hkq, by rw [(hpt q).2 hnw, hty, hpp], hbetw,
+          fun hb => hnF (hF' q hb).1⟩)
   · -- trail
     intro b hb k hkU hkk hin p hp hbp hpk hkp
-    obtain ⟨hFb, hbo, hbc⟩ := hF' b hb
-    obtain ⟨hbU, hkb, hnb, htb⟩ := hinv.fresh b hFb
+    obtain ⟨hFb, _, _⟩ := hF' b hb
     have hpbn := hinv.trail b hFb k hkU hkk hin p hp hbp hpk hkp
     have hnw : ¬ WrV U ocs pcs o c p := by
-      rintro ⟨_, h⟩
-      have hcase : ∀ b0, (b0 = o ∨ b0 = c) → b0 < p →
-          (∀ i ∈ U, b0 < i → i ≤ p → condP ocs pcs i = true) → False := by
-        intro b0 hb0 hb0p hseg
-        have hbb0 : b ≠ b0 := by rcases hb0 with rfl | rfl <;> assumption
-        rcases Nat.lt_trichotomy b b0 with h1 | h1 | h1
-        · exact hnotin b0 hb0 b k hin h1 (by omega)
-        · exact hbb0 h1
-        · exact hnoseg b hFb (hseg b hbU h1 (by omega))
-      rcases h with h | h | ⟨h1, h2⟩ | ⟨h1, _, h3⟩ | ⟨h1, h2⟩
-      · subst h; rw [hko] at hkp; cases hkp
-      · subst h; rw [hkc] at hkp; cases hkp
-      · -- `p` in the BN run before `o`, but the kept `k` lies between `p` and `o`
-        rcases Nat.lt_or_ge k o with hko' | hko'
-        · exact hinv.kept k hkU hkk (h2 k hkU (Nat.le_of_lt hpk) hko')
-        · exact hnotin o (Or.inl rfl) b k hin (by omega) hko'
-      · exact hcase o (Or.inl rfl) h1 h3
-      · exact hcase c (Or.inr rfl) h1 h2
+      intro hw
+      -- a removed unit is written only in front of `o`, but `p` lies behind the pending end `b`
+      obtain ⟨h1, _⟩ := WrV_removed hw hkp hko hkc
+      have := hord b hb
+      omega
     rw [(hpt p).2 hnw]; exact hpbn
 
 end step
